@@ -535,7 +535,7 @@ func main() {
 	lcs := legalCases(defs, run.Thorough())
 	scs := syncScenarios()
 	dbound, pbound := 2, 1
-	maxExec := int64(200000)
+	maxExec := int64(60000)
 	if run.Thorough() {
 		dbound, pbound = 3, 2
 		maxExec = 4000000
